@@ -302,6 +302,35 @@ func localFieldStore(al *ssa.Alloc, field int) (ssa.Value, bool) {
 	}
 	var val ssa.Value
 	n := 0
+	// whole-struct initialisation from a composite literal temporary:
+	//   t1 = local T (complit); t1.f = v; t2 = *t1; *al = t2
+	var whole []*ssa.Store
+	for _, r := range *refs {
+		if st, ok := r.(*ssa.Store); ok && st.Addr == ssa.Value(al) {
+			whole = append(whole, st)
+		}
+	}
+	if len(whole) == 1 {
+		if ld, ok := whole[0].Val.(*ssa.UnOp); ok && ld.Op == token.MUL {
+			if src, ok := ld.X.(*ssa.Alloc); ok && src != al {
+				// no direct field stores to al.field
+				direct := false
+				for _, r := range *refs {
+					if fa, ok := r.(*ssa.FieldAddr); ok && fa.Field == field && fa.Referrers() != nil {
+						for _, rr := range *fa.Referrers() {
+							if st, ok := rr.(*ssa.Store); ok && st.Addr == ssa.Value(fa) {
+								direct = true
+							}
+						}
+					}
+				}
+				if !direct {
+					return localFieldStore(src, field)
+				}
+			}
+		}
+		return nil, false
+	}
 	for _, r := range *refs {
 		switch x := r.(type) {
 		case *ssa.FieldAddr:
@@ -370,6 +399,14 @@ func pathOf(v ssa.Value, depth int) string {
 	case *ssa.FieldAddr:
 		return "&" + addrPath(x, depth+1)
 	case *ssa.Field:
+		if ld, ok := x.X.(*ssa.UnOp); ok && ld.Op == token.MUL {
+			if al, ok := cellRoot(ld.X).(*ssa.Alloc); ok {
+				if sv, ok := localFieldStore(al, x.Field); ok {
+					return pathOf(sv, depth+1)
+				}
+				return "alloc:" + valueID(al) + "." + FieldValName(x)
+			}
+		}
 		return pathOf(x.X, depth+1) + "." + FieldValName(x)
 	case *ssa.Index:
 		if k, ok := IntConst(x.Index); ok {
@@ -621,3 +658,10 @@ func CellLoads(addr ssa.Value) []*ssa.UnOp {
 
 // CellRoot exposes cellRoot.
 func CellRoot(addr ssa.Value) ssa.Value { return cellRoot(addr) }
+
+// LocalFieldStore exposes localFieldStore: the unique value stored into
+// field `field` of a local struct allocation.
+func LocalFieldStore(al *ssa.Alloc, field int) (ssa.Value, bool) { return localFieldStore(al, field) }
+
+// ValueID exposes valueID (function-qualified SSA name).
+func ValueID(v ssa.Value) string { return valueID(v) }
